@@ -18,7 +18,7 @@ DESCRIPTION = {
 
 
 def plan(tier, seed):
-    n = 200 if tier == "quick" else 2000
+    n = 320 if tier == "quick" else 2000
     jobs = []
     for i, fw in enumerate(("twisted", "asyncio")):
         for sh in range(3 if tier == "quick" else 8):
